@@ -101,12 +101,17 @@ def run(chk, scratch):
             nf = min(ng, 3)
             bams = []
             labels = []
+            # odd hash seeds: no --labels, the documented default label is the file name without its extension; the names contain dots and two
+            # of them agree up to the first dot
+            default_names = ["LIB.rep1", "LIB.rep2", "OTHER"]
             for fi in range(nf):
-                p = os.path.join(d, "part%d.bam" % fi)
+                p = os.path.join(d, ("%s.bam" % default_names[fi]) if hs % 2 == 1 else ("part%d.bam" % fi))
                 w.write_bam(p, file_idx=fi)
                 bams.append(p)
                 labels.append("lab%d" % fi)
-            extra += ["--read_group", "file_name", "--labels"] + labels
+            extra += ["--read_group", "file_name"] + ((["--labels"] + labels) if hs % 2 == 0 else [])
+            if hs % 2 == 1:
+                truth = {k_: (default_names[int(v_[3:])] if v_.startswith("lab") else v_) for k_, v_ in truth.items()}
         else:
             if mode == "tag" and hs % 2 == 1:
                 # a lower-case tag (the SAM specification reserves lower-case codes for users; tag names are case sensitive)
